@@ -24,6 +24,7 @@ def confirm(d):
     res = {}
     try:
         demo = os.path.join(d, "demo.sh")
+        os.makedirs(tg, exist_ok=True)          # some demos write a build log into the target directory before cargo creates it
         env = dict(os.environ, CARGO_NET_OFFLINE="true")
         rc0, o0 = sh(["timeout", "900", "bash", demo, wt, tg], env=env, stdin=subprocess.DEVNULL)
         res["demo_without_patch"] = rc0
